@@ -56,6 +56,13 @@ class Gen:
     def action(self):
         return self.rng.choice(ACTIONS)
 
+    def call(self, j):
+        """flow call; flows with a parameter are called with one of two values (two values = two
+        different reference instances when activated)"""
+        if j in getattr(self, "with_param", ()):
+            return f'f{j} "{self.rng.choice("ab")}"'
+        return f"f{j}"
+
     def ev(self):
         return f"E{self.rng.randrange(NEV)}()"
 
@@ -79,16 +86,16 @@ class Gen:
                     if r.random() < 0.4:
                         self.nref += 1
                         refs.append(f"$r{self.nref}")
-                        return [f"start f{js[0]} as $r{self.nref}"]
-                    return [f"start f{js[0]}"]
+                        return [f"start {self.call(js[0])} as $r{self.nref}"]
+                    return [f"start {self.call(js[0])}"]
             if k == "await_flow":
                 js = self.later(i, n)
                 if js:
-                    return [f"await f{js[0]}"]
+                    return [f"await {self.call(js[0])}"]
             if k == "activate":
                 js = [j for j in range(i + 1, n + 1) if j in activatable]
                 if js:
-                    return [f"activate f{r.choice(js)}"]
+                    return [f"activate {self.call(r.choice(js))}"]
             if k == "start_action":
                 if r.random() < 0.3:
                     self.nref += 1
@@ -108,7 +115,7 @@ class Gen:
                 if len(js) == 2:
                     op = r.choice(["and", "or"])
                     kw = r.choice(["start", "await"])
-                    return [f"{kw} f{js[0]} {op} f{js[1]}"]
+                    return [f"{kw} {self.call(js[0])} {op} {self.call(js[1])}"]
             if k == "group_action":
                 op = r.choice(["and", "or"])
                 kw = r.choice(["start", "await"])
@@ -124,7 +131,7 @@ class Gen:
             if k == "deactivate":
                 js = [j for j in range(i + 1, n + 1) if j in activatable]
                 if js:
-                    return [f"deactivate f{r.choice(js)}"]
+                    return [f"deactivate {self.call(r.choice(js))}"]
             if k == "abort":
                 return ["abort"]
             if k == "when" and not in_when:
@@ -143,7 +150,7 @@ class Gen:
                 cond = self.action()
             else:
                 js = self.later(i, n)
-                cond = f"f{js[0]}" if js else self.ev()
+                cond = self.call(js[0]) if js else self.ev()
             lines.append(("when " if c == 0 else "or when ") + cond)
             for _ in range(r.choice([1, 1, 2])):
                 body = self.simple_stmt(i, n, BODY_KINDS, refs, activatable, in_when=True)
@@ -175,9 +182,10 @@ class Gen:
         n = r.choice([2, 3, 3, 4, 4, 5])
         activatable = set(j for j in range(1, n + 1) if r.random() < 0.35)
         immediate = set(j for j in activatable if r.random() < 0.25)
+        self.with_param = set(j for j in range(1, n + 1) if r.random() < 0.25)
         out = []
         for i in range(0, n + 1):
-            name = "main" if i == 0 else f"f{i}"
+            name = "main" if i == 0 else (f"f{i} $x" if i in self.with_param else f"f{i}")
             out.append(f"flow {name}")
             out += ["  " + l for l in self.flow_body(i, n, activatable, immediate)]
             out.append("")
@@ -267,6 +275,9 @@ SEEDS = [
     # the activated instance finishes in the same event in which its last activator ends
     ("flow main\n  start f1\n  start f2\n  match Never()\n\nflow f1\n  activate f3\n  match E1()\n\nflow f2\n  activate f3\n  match E0()\n\nflow f3\n  match E0()\n",
      [["ev", 1], ["ev", 0], ["ev", 0]]),
+    # two reference instances of one flow (different parameters), each with its own activators
+    ("flow main\n  start f1\n  start f2\n  match Never()\n\nflow f1\n  activate f3 \"a\"\n  activate f3 \"b\"\n  match E1()\n\nflow f2\n  activate f3 \"a\"\n  activate f3 \"a\"\n  match E0()\n\nflow f3 $x\n  match E2()\n  start UtteranceBotAction(script=$x)\n",
+     [["ev", 2], ["ev", 1], ["ev", 2], ["ev", 0], ["ev", 2]]),
     # ... or is stopped by its parent
     ("flow main\n  start f1 as $r1\n  match E1()\n  send $r1.Stop()\n  match Never()\n\nflow f1\n  start UtteranceBotAction(script=\"a\") as $a1\n  start f2\n  match E0()\n  send $a1.Stop()\n  match Never()\n\nflow f2\n  await GestureBotAction(gesture=\"g\")\n",
      [["ev", 0], ["ev", 1], ["finished", 0]]),
@@ -296,6 +307,31 @@ def _kind_of(name):
     return "KOther"
 
 
+def _params_match(sm, state, inst, event):
+    """Independent re-statement of the parameter comparison of _get_reference_activated_flow_instance:
+    every declared parameter of the flow has, in the instance, the value the event gives it (by name,
+    by position, or - when the event gives none - the declared default)."""
+    cfg = state.flow_configs[inst.flow_id]
+    args = event.arguments
+    for idx, prm in enumerate(cfg.parameters):
+        if prm.name not in inst.arguments:
+            return False
+        val = inst.arguments[prm.name]
+        ok = False
+        if prm.name in args and val == args[prm.name]:
+            ok = True
+        if f"${idx}" in args and val == args[f"${idx}"]:
+            ok = True
+        if prm.name not in args and f"${idx}" not in args and prm.default_value_expr is not None:
+            from nemoguardrails.colang.v2_x.runtime.eval import eval_expression
+
+            if val == eval_expression(prm.default_value_expr, {}):
+                ok = True
+        if not ok:
+            return False
+    return True
+
+
 class Recorder:
     """Installs the wrappers/hooks on the statemachine module and records snapshot cases."""
 
@@ -306,6 +342,8 @@ class Recorder:
         self.open = []        # records being filled (innermost last)
         self.explicit_stops = set()  # Stop events sent by a `send $action.Stop()` statement
         self.explicit_deactivated = set()  # flow ids named by an explicit deactivate statement
+        self.hyp = []                      # violated hypotheses of the activation theorems
+        self.main_finished = False
         self.stack = []       # uids of the flows whose _abort_flow/_finish_flow is executing
         self.cases = []
         self.released = set() # (flow uid, action uid) released by an EndScope   (oracle ledger)
@@ -361,6 +399,8 @@ class Recorder:
                 op = [opname if restart else opname + "_norestart", flow_state.uid, bool(deactivate_flow)]
                 if extra or (not restart and opname != "abort"):
                     op = ["unmodelled:" + opname + ":" + ",".join(extra), flow_state.uid, bool(deactivate_flow)]
+                if opname == "finish" and flow_state.flow_id == "main":
+                    rec.main_finished = True
                 r0 = rec.begin(state, op)
                 rec.stack.append(flow_state.uid)
                 try:
@@ -387,6 +427,8 @@ class Recorder:
                     rec.emit(["failed", event.arguments.get("source_flow_instance_uid")])
                 elif event.name == "FlowFinished":
                     rec.emit(["finished", event.arguments.get("source_flow_instance_uid")])
+                elif event.name == "FlowStarted" and rec.open[-1]["op"][0] == "startproc":
+                    rec.emit(["started", event.arguments.get("source_flow_instance_uid")])
                 else:
                     rec.emit(["other", "push:" + event.name])
             if rec.guard_pending is not None and event.name == "FlowStarted":
@@ -440,8 +482,54 @@ class Recorder:
             # activators that END, so the "must be restarted" rule is not applied to X afterwards
             if event.name in ("StopFlow", "FinishFlow") and event.arguments.get("deactivate") and event.arguments.get("flow_id"):
                 rec.explicit_deactivated.add(event.arguments["flow_id"])
-            return orig_proc(state, event)
+            r0 = None
+            if event.name == "StartFlow" and event.arguments.get("flow_id") in state.flow_configs and not rec.open:
+                a = event.arguments.get("activated")
+                a = 0 if not a else (1 if a is True else int(a))
+                fid = event.arguments["flow_id"]
+                matching = [u for u, f in state.flow_states.items() if f.flow_id == fid and _params_match(rec.sm, state, f, event)]
+                new_uid = event.arguments.get("flow_instance_uid", "<none>")
+                existed = new_uid in state.flow_states
+                r0 = rec.begin(state, ["startproc", fid, new_uid, event.arguments.get("source_flow_instance_uid"), a, matching])
+                # hypotheses of C06_activation_count / C06_activation on real StartFlow events
+                src = state.flow_states.get(event.arguments.get("source_flow_instance_uid"))
+                if src is not None and src.flow_id != fid and a not in (0, 1):
+                    rec.hyp.append("ev_wf: start by another flow with marker %r" % a)
+                if new_uid in state.flow_states:
+                    rec.hyp.append("fresh: uid of the new instance already exists")
+                if (src is not None and src.flow_id == fid and a != 0 and src.activated != 0 and src.parent_uid in state.flow_states
+                        and state.flow_states[src.parent_uid].flow_id != fid and src.uid not in matching):
+                    rec.hyp.append("pm: the restart of a reference instance does not carry its own parameters")
+            try:
+                r = orig_proc(state, event)
+            except BaseException as e:
+                if r0 is not None:
+                    rec.end(state, r0, e)
+                raise
+            if r0 is not None:
+                created = (new_uid in state.flow_states) and not existed
+                r0["eff_src"] = event.arguments.get("source_flow_instance_uid") if created else None
+                rec.end(state, r0)
+            return r
 
+        orig_start = sm._start_flow
+
+        def start_flow(state, flow_state, event_arguments):
+            a = event_arguments.get("activated", 0)
+            a = 0 if not a else (1 if a is True else int(a))
+            src = event_arguments.get("source_flow_instance_uid")
+            r0 = None if rec.open else rec.begin(state, ["startlink", flow_state.uid, src if src is not None else "<none>", a])
+            try:
+                r = orig_start(state, flow_state, event_arguments)
+            except BaseException as e:
+                if r0 is not None:
+                    rec.end(state, r0, e)
+                raise
+            if r0 is not None:
+                rec.end(state, r0)
+            return r
+
+        sm._start_flow = start_flow
         sm._process_internal_events_without_default_matchers = proc
         sm._push_internal_event = push
         sm._push_left_internal_event = pushl
@@ -585,6 +673,8 @@ class Oracle:
         self.finished_delivered = set()
         self.stops = {}
         self.only_explicit = set()   # actions whose only Stop so far was an explicit `send $action.Stop()`
+        self.inv_viol = []
+        self.inv_checked = 0
         self.viol = []
 
     def before_event(self, ev, state=None):
@@ -655,6 +745,16 @@ class Oracle:
                     V.append(("child-outlives-parent", step,
                               f"instance of `{f.flow_id}` is {f.status.name} although the flow `{p.flow_id}` that started it is {p.status.name}",
                               {"child": uid, "parent": f.parent_uid}))
+        # the counting invariant of C06_activation_count on the real state (runs without an explicit
+        # deactivation and in which the main flow did not finish, as in the theorem)
+        if not self.rec.explicit_deactivated and not self.rec.main_finished:
+            live = ("WAITING", "STARTING", "STARTED", "STOPPING")
+            for uid, f in fs.items():
+                if f.activated != 0 and f.parent_uid in fs and fs[f.parent_uid].flow_id != f.flow_id:
+                    n = sum(x.child_flow_uids.count(uid) for x in fs.values() if x.status.name in live)
+                    if n != f.activated:
+                        self.inv_viol.append([step, f"reference instance of `{f.flow_id}`: activated={f.activated} but {n} entries of live instances"])
+            self.inv_checked += 1
         # (3') a running restarted instance (child of an instance of the same flow) needs a reference
         #      instance that is still activated by a running flow
         for uid, f in fs.items():
@@ -702,6 +802,8 @@ def run_one(sm, fl, U, src, history, policy):
     rec.depth, rec.open, rec.stack, rec.guard_pending = 0, [], [], None
     rec.explicit_stops = set()
     rec.explicit_deactivated = set()
+    rec.hyp = []
+    rec.main_finished = False
     rec._es_open = False
     res = {"cases": [], "guards": [], "viol": [], "steps": 0, "error": None, "stats": {}}
     try:
@@ -751,6 +853,9 @@ def run_one(sm, fl, U, src, history, policy):
     res["guards"] = rec.guards
     res["events"] = events_fed
     res["viol"] = [[sig, st, what, detail] for sig, st, what, detail in orc.viol]
+    res["inv_viol"] = orc.inv_viol
+    res["inv_checked"] = orc.inv_checked
+    res["hyp"] = list(rec.hyp)
     nshared = sum(1 for a in state.actions.values() if a.flow_scope_count >= 2) if res["error"] is None else 0
     res["stats"] = {"instances": len(state.flow_states), "actions": len(orc.started), "stops": sum(1 for v in orc.stops.values() if v > 0),
                     "shared_now": nshared}
@@ -950,6 +1055,8 @@ def case_term(rec):
                 em.append(f"EFinished {uid(e[1])}")
             elif e[0] == "restart":
                 em.append(f"ERestart {uid(e[1])} {uid(e[2])} {C.coq_Z(e[3])}")
+            elif e[0] == "started":
+                em.append(f"EStarted {uid(e[1])}")
             else:
                 raise ValueError("unmodelled emission " + str(e))
         return f"(mkSt {C.coq_list(fl)} {C.coq_list(ac)} {C.coq_list(em)})"
@@ -959,7 +1066,22 @@ def case_term(rec):
         op = rec["op"]
         if op[0].startswith("unmodelled:"):
             return None, "call outside the model: " + op[0]
-        if op[0] == "abort":
+        if op[0] == "startproc":
+            ev_t = (f"(mkSfev {fid(op[1]) if op[1] != 'main' else 0} {uid(op[2])} "
+                    f"{C.coq_option(coq_N(uid(op[3]))) if op[3] is not None else 'None'} {C.coq_Z(op[4])})")
+            match_t = C.coq_list([coq_N(uid(x)) for x in op[5]])
+            if "exc" in rec:
+                if rec["exc"] not in EXC:
+                    return None, "exception " + rec["exc"]
+                exp_t = f"(@inr (st * option uid) exn {EXC[rec['exc']]})"
+            else:
+                eff = rec.get("eff_src")
+                exp_t = (f"(@inl (st * option uid) exn ({st_term(rec['post'], rec['emit'])}, "
+                         f"{C.coq_option(coq_N(uid(eff))) if eff is not None else 'None'}))")
+            return f"({pre_t}, {ev_t}, {match_t}, {exp_t})", None
+        if op[0] == "startlink":
+            op_t = f"(OStartLink {uid(op[1])} {uid(op[2])} {C.coq_Z(op[3])})"
+        elif op[0] == "abort":
             op_t = f"(OAbort {uid(op[1])} {C.coq_bool(op[2])})"
         elif op[0] == "abort_norestart":
             op_t = f"(OAbortNR {uid(op[1])} {C.coq_bool(op[2])})"
@@ -1065,11 +1187,13 @@ def run(tier, seed, replay=None):
     # ---- collect
     terms, kept, seen = [], [], set()
     gterms, gseen = [], set()
+    sterms, skept = [], []
     n_cases = n_nontrivial = 0
     skipped = {}
     opmix, errs = {}, {}
     hyp_bad = {}
     escaped = []
+    inv_checked = 0
     stats = {"programs": 0, "steps": 0, "instances": 0, "actions": 0, "stops": 0, "parse_errors": 0, "hangs": 0,
              "runs_with_shared_action": 0, "exceptions": 0}
     for job in jobs:
@@ -1096,6 +1220,11 @@ def run(tier, seed, replay=None):
             stats[k] += r.get("stats", {}).get(k, 0)
         if any(a[2] >= 2 for c in r["cases"] for a in c["pre"]["acts"]):
             stats["runs_with_shared_action"] += 1
+        inv_checked += r.get("inv_checked", 0)
+        for st, what in r.get("inv_viol", [])[:1]:
+            out.add_broken("invariant:C06-count", f"the counting invariant fails on a real state (step {st}): {what}\nprogram:\n{job['src']}\nhistory={job['history']} policy={job['policy']}")
+        for h in r.get("hyp", [])[:1]:
+            out.add_broken("hypothesis:C06-activation", f"{h}\nprogram:\n{job['src']}\nhistory={job['history']} policy={job['policy']}")
         for sig, st, what, detail in r["viol"]:
             out.findings.append(C.Finding(sig, what, {"src": job["src"], "history": job["history"], "policy": job["policy"],
                                                        "step": st, "events_fed": r.get("events"), "offending": detail}))
@@ -1117,8 +1246,12 @@ def run(tier, seed, replay=None):
             seen.add(h)
             if nontrivial(c):
                 n_nontrivial += 1
-            terms.append(t)
-            kept.append((c, job))
+            if c["op"][0] == "startproc":
+                sterms.append(t)
+                skept.append((c, job))
+            else:
+                terms.append(t)
+                kept.append((c, job))
         for gpre, gpost in r["guards"]:
             t = f"(({FST[gpre[0]]}, {C.coq_Z(gpre[1])}, {C.coq_bool(gpre[2])}, {C.coq_bool(gpre[3])}), ({FST[gpost[0]]}, {C.coq_bool(gpost[1])}, {C.coq_bool(gpost[2])}))"
             if t not in gseen:
@@ -1133,6 +1266,20 @@ def run(tier, seed, replay=None):
             out.add_broken("correspondence:C06-life(coqc)", err)
         else:
             disagreements = [(c, job) for ok, (c, job) in zip(bools, kept) if not ok]
+    if okm and sterms:
+        bools, err = C.run_cases(PID + "_start", PREAMBLE, sterms, "check_start")
+        if err:
+            out.add_broken("correspondence:C06-start(coqc)", err)
+        else:
+            bad = [(c, job) for ok, (c, job) in zip(bools, skept) if not ok]
+            if bad:
+                c, job = min(bad, key=lambda x: len(json.dumps(x[0])))
+                t, _ = case_term(c)
+                model = C.eval_term(PID + "_start", PREAMBLE, f"start_proc (fun u => existsb (N.eqb u) (snd (fst {t}))) (fst (fst (fst {t}))) (snd (fst (fst {t})))")
+                out.add_broken("correspondence:C06-start",
+                               f"{len(bad)} disagreements on the START_FLOW branch; smallest: op={c['op']} eff_src={c.get('eff_src')} exc={c.get('exc')}\nprogram:\n{job['src']}\n"
+                               f"history={job['history']} policy={job['policy']}\ncase={json.dumps(c)[:3000]}\nmodel={model[-1500:]}")
+                disagreements += bad
     if okm and gterms:
         bools, err = C.run_cases(PID + "_guard", PREAMBLE, gterms, "check_guard")
         if err:
@@ -1154,7 +1301,7 @@ def run(tier, seed, replay=None):
     if replay and not out.findings and not out.broken:
         print("replay: no violation reproduced")
     out.coverage.update({
-        "evaluations": len(terms) + len(gterms),
+        "evaluations": len(terms) + len(sterms) + len(gterms),
         "distinct_nontrivial": n_nontrivial,
         "rule": "a case = one real call (nested calls included) of _abort_flow/_finish_flow/EndScope/_update_action_status_by_event with its abstract pre/post snapshot; distinct by hash of the renamed Coq term; non-trivial = at least two instances/actions changed, or a Stop / restart emitted, or an exception",
         "samples": [{"op": c["op"], "emit": c.get("emit"), "exc": c.get("exc"), "n_instances": len(c["pre"]["flows"]), "n_actions": len(c["pre"]["acts"])} for c, _ in kept[:5]],
@@ -1163,9 +1310,10 @@ def run(tier, seed, replay=None):
                                "errors": errs, "hangs_skipped_as_C10": stats["hangs"], "parse_errors": stats["parse_errors"],
                                "instances_total": stats["instances"], "actions_started": stats["actions"], "stops_observed": stats["stops"],
                                "runs_with_shared_action": stats["runs_with_shared_action"], "skipped": skipped,
-                               "guard_cases": len(gterms),
+                               "guard_cases": len(gterms), "start_flow_cases": len(sterms),
+                               "real_states_on_which_the_counting_invariant_was_checked": inv_checked,
                                "exceptions_escaping_run_to_completion(C10)": escaped},
-        "traces_validated_against_impl": len(terms) + len(gterms),
+        "traces_validated_against_impl": len(terms) + len(sterms) + len(gterms),
         "correspondence_disagreements": len(disagreements),
         "oracle_violations": len(out.findings),
         "impl_s": round(t_impl, 1), "coq_cases_s": round(t_coq, 1),
